@@ -86,6 +86,11 @@ class Center:
         else:
             res = self.offset
 
+        if hasattr(res, "form"):
+            # The offset is a position/velocity vector, whatever the form
+            # the statevector is expressed in
+            res = res.copy(form="cartesian")
+
         return self.orientation.convert_to(date, orientation) @ res
 
 
